@@ -229,7 +229,8 @@ def _least_common_subsumers(
 def _most_informative_lcs(synset1: Synset, synset2: Synset, ic: Freq) -> Synset:
     pos_ic = ic[ADJ if synset1.pos == ADJ_SAT else synset1.pos]
     lcs = _least_common_subsumers(synset1, synset2, False)
-    return max(lcs, key=lambda ss: pos_ic[ss.id])
+    # the most informative synset is the one with the lowest weight
+    return min(lcs, key=lambda ss: pos_ic[ss.id])
 
 
 def _check_if_pos_compatible(pos1: str, pos2: str) -> None:
